@@ -415,10 +415,10 @@ Qed.
 
 (* Crash / resume: from any durable state on the trace of an update, a fresh
    update (empty volatile state) ends with the node's best chain. *)
-Theorem resume_after_crash p nd s fuel o st' flag tr :
-  params_ok p -> fixed p = true -> (2 <= fuel)%nat ->
+Lemma resume_after_crash_tr p nd s fuel tr0 o st' flag tr :
+  params_ok p -> fixed p = true -> (1 <= fuel)%nat ->
   Inv s -> prefix (blocks (cur s)) (chain nd) ->
-  update fuel p nd s [] = (o, st', flag, tr) ->
+  update fuel p nd s tr0 = (o, st', flag, tr) ->
   o = UOk /\ blocks (cur st') = chain nd.
 Proof.
   intros Hp Hf Hfuel HI Hpre.
@@ -433,6 +433,16 @@ Proof.
     apply (detect_prefix p (blocks (cur s)) (blocks (cur s)) (chain nd));
       [apply prefix_refl|assumption|assumption].
   - intros H. inversion H; subst. split; [reflexivity|assumption].
+Qed.
+
+Theorem resume_after_crash p nd s fuel o st' flag tr :
+  params_ok p -> fixed p = true -> (2 <= fuel)%nat ->
+  Inv s -> prefix (blocks (cur s)) (chain nd) ->
+  update fuel p nd s [] = (o, st', flag, tr) ->
+  o = UOk /\ blocks (cur st') = chain nd.
+Proof.
+  intros Hp Hf Hfuel HI Hpre H.
+  eapply resume_after_crash_tr; try eassumption. lia.
 Qed.
 
 Lemma Inv_empty : Inv empty_store.
